@@ -366,7 +366,10 @@ class HTMLSerializer(object):
                         else:
                             yield self.encode(v)
                             unquoted_value_last = True
-                if name in voidElements and self.use_trailing_solidus:
+                if (name in voidElements and self.use_trailing_solidus and
+                        token.get("namespace") in (None, namespaces["html"])):
+                    # (only HTML elements are void: "<svg><link />" would make
+                    # a start tag self-closing)
                     if self.space_before_trailing_solidus or unquoted_value_last:
                         # (directly after an unquoted attribute value the
                         # solidus would become part of the value)
